@@ -700,6 +700,8 @@ def _elementwise(name):
         if name == "sqrt" and isinstance(x, (builtins.int, builtins.float, _np.integer, _np.floating)) \
                 and not isinstance(x, builtins.bool) and x >= 0:
             return S.sqrt(lift_strict(x))     # exact algebraic constant instead of its double
+        if name in ("log", "log10") and isinstance(x, (builtins.int, _np.integer)) and not isinstance(x, builtins.bool) and x > 1:
+            return getattr(lift_strict(x), name)()      # log of an integer constant stays a symbol (exact), not its double
         return uf(x, *a, **k)
     f.__name__ = name
     return f
@@ -839,7 +841,84 @@ def linalg_norm(x, ord=None, axis=None, keepdims=False):
     return S.sqrt(s)
 
 
+def linalg_eig(m):
+    """eigenvalues of a symmetric 2x2 (closed form) or 3x3 (fresh symbols constrained by Vieta's relations and
+    realness) symbolic matrix; eigenvectors are not modelled (None)"""
+    m = m if isinstance(m, _np.ndarray) else f_array(m)
+    if _rdt(m) != object:
+        return _np.linalg.eig(m)
+    n_ = m.shape[0]
+    EIG_LOG.append(m)
+    if n_ == 2:
+        tr = m[0, 0] + m[1, 1]
+        det = m[0, 0] * m[1, 1] - m[0, 1] * m[1, 0]
+        disc = S.sqrt(tr * tr - 4 * det)
+        vals = [(tr + disc) / 2, (tr - disc) / 2]
+    elif n_ == 3:
+        import z3
+        tr = m[0, 0] + m[1, 1] + m[2, 2]
+        c2 = (m[0, 0] * m[1, 1] - m[0, 1] * m[1, 0]) + (m[0, 0] * m[2, 2] - m[0, 2] * m[2, 0]) + (m[1, 1] * m[2, 2] - m[1, 2] * m[2, 1])
+        det = _det(m)
+        mm = m
+
+        def fe_k(k):
+            def fe(env, k=k):
+                a = _np.array([[lift_strict(mm[i, j]).feval(env) for j in builtins.range(3)] for i in builtins.range(3)], dtype=float)
+                return builtins.float(_np.sort(_np.linalg.eigvalsh((a + a.T) / 2))[k])
+            return fe
+        deps = set()
+        for v in m.ravel():
+            deps |= lift_strict(v).atomset()
+        atoms = [S.REG.new_atom(f"eig!{len(S.REG.atoms)}", "eig", data=(mm, k), fe=fe_k(k), deps=deps) for k in builtins.range(3)]
+        S.REG.uninterpreted += 1
+        l0, l1, l2 = [SR.atom(a.idx) for a in atoms]
+        for rel in ((l0 + l1 + l2) == tr, (l0 * l1 + l0 * l2 + l1 * l2) == c2, (l0 * l1 * l2) == det, l0 <= l1, l1 <= l2):
+            if isinstance(rel, SB):
+                for a in atoms:
+                    S.REG.add_axiom(rel.z, a.idx)
+        vals = [l0, l1, l2]
+    else:
+        raise S.SymbolicLeak("eig of a symbolic matrix larger than 3x3")
+    out = _np.empty(n_, dtype=object)
+    for i, v in enumerate(vals):
+        out[i] = v
+    r = out.view(SArr)
+    r._dt = _np.dtype(float)
+    return r, None
+
+
+EIG_LOG = []
+
+
+def f_sort(a, axis=-1, **kw):
+    if isinstance(a, _np.ndarray) and _rdt(a) == object and a.ndim == 1:
+        # sorting network of If-terms (min/max), no forking on the order of symbolic values
+        vals = [lift_strict(v) for v in a]
+        n_ = len(vals)
+        for i in builtins.range(n_):
+            for j in builtins.range(n_ - 1 - i):
+                x, y = vals[j], vals[j + 1]
+                c = x <= y
+                if not isinstance(c, builtins.bool) and S.ENGINE is not None:
+                    known = S.ENGINE.implied(c)          # e.g. eigenvalue symbols that are ordered by definition
+                    if known is not None:
+                        c = known
+                if isinstance(c, builtins.bool):
+                    lo, hi = (x, y) if c else (y, x)
+                else:
+                    lo, hi = S.where(c, x, y), S.where(c, y, x)      # one indicator for both: lo + hi == x + y structurally
+                vals[j], vals[j + 1] = lo, hi
+        out = _np.empty(n_, dtype=object)
+        for i, v in enumerate(vals):
+            out[i] = v
+        r = out.view(SArr)
+        r._dt = getattr(a, "_dt", None)
+        return r
+    return _np.sort(a, axis=axis, **kw)
+
+
 class _Linalg:
+    eig = staticmethod(linalg_eig)
     inv = staticmethod(linalg_inv)
     det = staticmethod(linalg_det)
     norm = staticmethod(linalg_norm)
@@ -881,6 +960,7 @@ class _Facade:
     identity = staticmethod(f_eye)
     where = staticmethod(f_where)
     histogram = staticmethod(f_histogram)
+    sort = staticmethod(f_sort)
     min = staticmethod(f_min)
     amin = staticmethod(f_min)
     max = staticmethod(f_max)
